@@ -12,6 +12,7 @@ import (
 type CaseC08 struct {
 	Boxes  []ref.Box // first box is also used for the single-voxel queries
 	HL, VL int64
+	Spell  int64 `json:",omitempty"`
 }
 
 func genC08(t *rapid.T) *CaseC08 {
@@ -56,6 +57,7 @@ func genC08(t *rapid.T) *CaseC08 {
 	if n > 5 {
 		c.HL, c.VL = min64(c.HL, 1), min64(c.VL, 1)
 	}
+	c.Spell = genSpell(t)
 	return c
 }
 
@@ -194,7 +196,7 @@ func checkC08(c *CaseC08, fl *Fails) {
 		}
 	}
 	// N-layer query on the list
-	ids := boxesExt(c.Boxes)
+	ids := spelledExt(c.Boxes, c.Spell)
 	got, err := operated.GetNspatialIdsAroundVoxcels(ids, c.HL, c.VL)
 	if err != nil {
 		fl.Add("error", "GetNspatialIdsAroundVoxcels(%v,%d,%d): %v", ids, c.HL, c.VL, err)
